@@ -3,3 +3,14 @@ recorded defect over the obligation's named values, so that any *other* way of b
 obligation is still reported as a violation."""
 from orquesta import statuses as st
 from pyvc.spec import AND, OR, NOT, IMPLIES, EQ, NE, IN, NOTIN
+
+
+def F3_blend(v):
+    """a dict value published over an earlier dict value of the same variable is merged key-wise
+    (blended) instead of superseding it — exactly the dict-over-dict case"""
+    return bool(v and v.get("blend"))
+
+
+def F7_no_candidates(v):
+    """a rerun that selects no execution at all (no abended terminal task and no explicit request)"""
+    return bool(v and v.get("no_candidates"))
